@@ -1,6 +1,842 @@
-//! C08 — not built yet.
+//! C08 — NSEC denial of existence is sound and complete.
+//!
+//! Case line (see `lean/HickoryVerif/Drv/C08.lean`):
+//!
+//!   vn <qname> <qtype> <soa|-> <rcode> <answers|-> <nsecs|->
+//!
+//! Implementation: the real `hickory_net::dnssec::verif_hooks::verify_nsec` on real
+//! `Query` / `Record` / `NSEC` values.  Oracle (independent of the Lean model): a semantic
+//! check — search for a zone view `Z` that is consistent with every given NSEC record (RFC 4034
+//! §4, RFC 4035 §5.4, RFC 6840 §4.1) and in which the response's claim is false.  If the
+//! implementation answers `Secure` while such a `Z` exists the records do not entail the claim:
+//! failure.  The candidate `Z`s are built explicitly and both `consistent_with` and `claim` are
+//! then evaluated on them by definition, so a reported failure always comes with a witness zone.
+use std::collections::{BTreeMap, BTreeSet, HashSet};
+
+use hickory_net::dnssec::verif_hooks;
+use hickory_proto::dnssec::rdata::{DNSSECRData, NSEC, RRSIG, SigInput};
+use hickory_proto::dnssec::{Algorithm, Proof};
+use hickory_proto::op::{Query, ResponseCode};
+use hickory_proto::rr::rdata::A;
+use hickory_proto::rr::{Name, RData, Record, RecordType, SerialNumber};
+
 use crate::common::*;
 
-pub fn run(_o: &Opts, rec: &mut Recorder) {
-    rec.rule = "stub".into();
+mod e2e;
+
+const T_A: u16 = 1;
+const T_NS: u16 = 2;
+const T_CNAME: u16 = 5;
+const T_SOA: u16 = 6;
+const T_TXT: u16 = 16;
+const T_DS: u16 = 43;
+const T_RRSIG: u16 = 46;
+const T_NSEC: u16 = 47;
+
+// ------------------------------------------------------------------------------------------
+// case representation
+// ------------------------------------------------------------------------------------------
+
+#[derive(Clone, Debug)]
+pub struct Ans {
+    pub name: Name,
+    pub secure: bool,
+    pub rrsig_labels: Option<u8>,
+}
+
+#[derive(Clone, Debug)]
+pub struct NsecRec {
+    pub owner: Name,
+    pub next: Name,
+    pub types: Vec<u16>,
+}
+
+#[derive(Clone, Debug)]
+pub struct Case {
+    pub q: Name,
+    pub qtype: u16,
+    pub soa: Option<Name>,
+    pub rcode: u16,
+    pub answers: Vec<Ans>,
+    pub nsecs: Vec<NsecRec>,
+}
+
+impl Case {
+    pub fn line(&self) -> String {
+        let ans = if self.answers.is_empty() {
+            "-".to_string()
+        } else {
+            self.answers
+                .iter()
+                .map(|a| {
+                    format!(
+                        "{}/{}/{}",
+                        name_tok(&a.name),
+                        b(a.secure),
+                        a.rrsig_labels.map(|l| l.to_string()).unwrap_or_else(|| "-".into())
+                    )
+                })
+                .collect::<Vec<_>>()
+                .join(",")
+        };
+        let nsecs = if self.nsecs.is_empty() {
+            "-".to_string()
+        } else {
+            self.nsecs
+                .iter()
+                .map(|n| {
+                    let ts = if n.types.is_empty() {
+                        "-".to_string()
+                    } else {
+                        n.types.iter().map(|t| t.to_string()).collect::<Vec<_>>().join("+")
+                    };
+                    format!("{}/{}/{}", name_tok(&n.owner), name_tok(&n.next), ts)
+                })
+                .collect::<Vec<_>>()
+                .join(",")
+        };
+        format!(
+            "vn {} {} {} {} {} {}",
+            name_tok(&self.q),
+            self.qtype,
+            self.soa.as_ref().map(name_tok).unwrap_or_else(|| "-".into()),
+            self.rcode,
+            ans,
+            nsecs
+        )
+    }
+
+    pub fn parse(t: &[&str]) -> Option<Case> {
+        let [op, q, qt, soa, rc, ans, nsecs] = t else { return None };
+        if *op != "vn" {
+            return None;
+        }
+        let q = parse_name(q)?;
+        let qtype: u16 = qt.parse().ok()?;
+        let soa = if *soa == "-" { None } else { Some(parse_name(soa)?) };
+        let rcode: u16 = rc.parse().ok()?;
+        let mut answers = vec![];
+        if *ans != "-" {
+            for a in ans.split(',') {
+                let f: Vec<&str> = a.split('/').collect();
+                let [n, s, l] = f[..] else { return None };
+                answers.push(Ans {
+                    name: parse_name(n)?,
+                    secure: match s {
+                        "1" => true,
+                        "0" => false,
+                        _ => return None,
+                    },
+                    rrsig_labels: if l == "-" { None } else { Some(l.parse().ok()?) },
+                });
+            }
+        }
+        let mut recs = vec![];
+        if *nsecs != "-" {
+            for a in nsecs.split(',') {
+                let f: Vec<&str> = a.split('/').collect();
+                let [o, n, ts] = f[..] else { return None };
+                let types = if ts == "-" {
+                    vec![]
+                } else {
+                    ts.split('+').map(|x| x.parse::<u16>().ok()).collect::<Option<Vec<_>>>()?
+                };
+                recs.push(NsecRec { owner: parse_name(o)?, next: parse_name(n)?, types });
+            }
+        }
+        Some(Case { q, qtype, soa, rcode, answers, nsecs: recs })
+    }
+}
+
+fn proof_str(p: Proof) -> &'static str {
+    match p {
+        Proof::Secure => "secure",
+        Proof::Insecure => "insecure",
+        Proof::Bogus => "bogus",
+        Proof::Indeterminate => "indeterminate",
+    }
+}
+
+/// Runs the real `verify_nsec` on real values built from the case.
+pub fn run_impl(c: &Case) -> Proof {
+    let query = Query::new(c.q.clone(), RecordType::from(c.qtype));
+    let answers: Vec<Record> = c
+        .answers
+        .iter()
+        .map(|a| {
+            let data = match a.rrsig_labels {
+                Some(l) => RData::DNSSEC(DNSSECRData::RRSIG(RRSIG::from_sig(
+                    SigInput {
+                        type_covered: RecordType::from(c.qtype),
+                        algorithm: Algorithm::ED25519,
+                        num_labels: l,
+                        original_ttl: 300,
+                        sig_expiration: SerialNumber::new(2_000_000_000),
+                        sig_inception: SerialNumber::new(1_000_000_000),
+                        key_tag: 1,
+                        signer_name: c.soa.clone().unwrap_or_else(Name::root),
+                    },
+                    vec![0u8; 4],
+                ))),
+                None => RData::A(A::new(192, 0, 2, 1)),
+            };
+            let mut r = Record::from_rdata(a.name.clone(), 300, data);
+            r.proof = if a.secure { Proof::Secure } else { Proof::Indeterminate };
+            r
+        })
+        .collect();
+    let nsec_data: Vec<NSEC> = c
+        .nsecs
+        .iter()
+        .map(|n| NSEC::new(n.next.clone(), n.types.iter().map(|t| RecordType::from(*t))))
+        .collect();
+    let nsecs: Vec<(&Name, &NSEC)> = c.nsecs.iter().zip(nsec_data.iter()).map(|(n, d)| (&n.owner, d)).collect();
+    verif_hooks::verify_nsec(&query, c.soa.as_ref(), <ResponseCode as From<u16>>::from(c.rcode), &answers, &nsecs)
+}
+
+// ------------------------------------------------------------------------------------------
+// the semantic oracle (RFC 4034 §6.1 keys, zone views, ConsistentWith, Claim)
+// ------------------------------------------------------------------------------------------
+
+pub type Key = Vec<Vec<u8>>;
+
+fn lower(l: &[u8]) -> Vec<u8> {
+    l.iter().map(|c| if c.is_ascii_uppercase() { c + 32 } else { *c }).collect()
+}
+
+/// RFC 4034 §6.1 sort key: labels from the most significant one, lower-cased.
+pub fn key(n: &Name) -> Key {
+    n.iter().rev().map(lower).collect()
+}
+
+fn is_prefix(p: &[Vec<u8>], k: &[Vec<u8>]) -> bool {
+    k.len() >= p.len() && k[..p.len()] == p[..]
+}
+
+fn star(k: &[Vec<u8>]) -> Key {
+    let mut w = k.to_vec();
+    w.push(b"*".to_vec());
+    w
+}
+
+/// A zone view: the names that own data (with their type sets) in the name space under `apex`.
+/// A name *exists* if it or a descendant owns data (empty non-terminals exist, RFC 4592 §2.2.2).
+#[derive(Clone, Debug)]
+pub struct ZoneView {
+    pub apex: Key,
+    pub data: BTreeMap<Key, BTreeSet<u16>>,
+}
+
+impl ZoneView {
+    fn exists(&self, k: &[Vec<u8>]) -> bool {
+        self.data.keys().any(|m| is_prefix(k, m))
+    }
+    fn has(&self, k: &[Vec<u8>], t: u16) -> bool {
+        self.data.get(k).is_some_and(|s| s.contains(&t))
+    }
+    /// longest proper ancestor of `k` that exists
+    fn closest_encloser(&self, k: &[Vec<u8>]) -> Option<Key> {
+        (0..k.len()).rev().map(|i| k[..i].to_vec()).find(|p| self.exists(p))
+    }
+}
+
+/// RFC 6840 §4.1 "ancestor delegation" NSEC: NS bit set, SOA bit clear.
+fn is_delegation_nsec(types: &[u16]) -> bool {
+    types.contains(&T_NS) && !types.contains(&T_SOA)
+}
+
+/// One NSEC `(o, next, T)` is a link of `Z`'s canonical chain.
+fn link_of(n: &NsecRec, z: &ZoneView) -> bool {
+    let (ko, kn) = (key(&n.owner), key(&n.next));
+    if !n.owner.is_fqdn() || !n.next.is_fqdn() {
+        return false;
+    }
+    if !is_prefix(&z.apex, &ko) || !is_prefix(&z.apex, &kn) {
+        return false;
+    }
+    let Some(have) = z.data.get(&ko) else { return false };
+    // the NSEC RRset and its RRSIG exist at the owner whatever the bitmap says (RFC 4035 §5.4:
+    // "a validator MUST ignore the settings of the NSEC and RRSIG bits")
+    if !have.contains(&T_NSEC) || !have.contains(&T_RRSIG) {
+        return false;
+    }
+    let deleg = is_delegation_nsec(&n.types);
+    if deleg {
+        // only the DS bit (and the presence of the delegation itself) is authoritative
+        if !have.contains(&T_NS) || have.contains(&T_DS) != n.types.contains(&T_DS) {
+            return false;
+        }
+    } else {
+        let strip = |s: &mut BTreeSet<u16>| {
+            s.remove(&T_RRSIG);
+            s.remove(&T_NSEC);
+        };
+        let mut a: BTreeSet<u16> = n.types.iter().copied().collect();
+        let mut bb = have.clone();
+        strip(&mut a);
+        strip(&mut bb);
+        if a != bb {
+            return false;
+        }
+    }
+    let wrap = kn == z.apex;
+    if !wrap && !(ko < kn && z.data.contains_key(&kn)) {
+        return false;
+    }
+    // nothing that owns data strictly between owner and next (names under an ancestor-side
+    // delegation NSEC's owner belong to the child zone: the record says nothing about them)
+    z.data.keys().all(|m| {
+        let inside = is_prefix(&z.apex, m) && *m > ko && (wrap || *m < kn);
+        !inside || (deleg && is_prefix(&ko, m))
+    })
+}
+
+pub fn consistent_with(nsecs: &[NsecRec], z: &ZoneView) -> bool {
+    nsecs.iter().all(|n| link_of(n, z))
+}
+
+/// RFC 4034 §3.1.3 label count of a name: the root and a leading `*` are not counted.
+fn rfc_labels(k: &[Vec<u8>]) -> usize {
+    if k.last().is_some_and(|l| l == b"*") { k.len() - 1 } else { k.len() }
+}
+
+/// The response's claim, evaluated in `z`.
+pub fn claim(c: &Case, z: &ZoneView) -> bool {
+    let kq = key(&c.q);
+    match (c.rcode, c.answers.is_empty()) {
+        // NXDOMAIN: the name does not exist (not even as an empty non-terminal) and no wildcard matches
+        (3, _) => !z.exists(&kq) && z.closest_encloser(&kq).is_none_or(|ce| !z.exists(&star(&ce))),
+        // NODATA: type absent at the name, or name absent and type absent at the matching wildcard
+        (0, true) => {
+            !z.has(&kq, c.qtype)
+                && (z.exists(&kq) || z.closest_encloser(&kq).is_none_or(|ce| !z.has(&star(&ce), c.qtype)))
+        }
+        // wildcard-expanded answer: for every authenticated wildcard RRSIG at the query name, the
+        // name does not exist and nothing exists between it and the wildcard's parent
+        (0, false) => c.answers.iter().all(|a| {
+            let Some(l) = a.rrsig_labels else { return true };
+            let l = l as usize;
+            if !a.secure || key(&a.name) != kq || l >= rfc_labels(&kq) {
+                return true;
+            }
+            (l + 1..=kq.len()).all(|j| !z.exists(&kq[..j]))
+        }),
+        _ => false,
+    }
+}
+
+/// Search for a zone view consistent with the NSECs in which the claim is false.
+/// `Some(Some(z))`: found; `Some(None)`: the NSEC set is consistent but entails the claim;
+/// `None`: no zone view at all is consistent with the NSEC set (soundness is vacuous).
+pub fn falsifier(c: &Case) -> Option<Option<ZoneView>> {
+    let kq = key(&c.q);
+    let keys: Vec<(Key, Key)> = c.nsecs.iter().map(|n| (key(&n.owner), key(&n.next))).collect();
+    // the apex: the SOA owner when present; otherwise the target of a wrapping link, otherwise the
+    // longest common ancestor of all names of the records
+    let apex: Key = if let Some(s) = &c.soa {
+        key(s)
+    } else if let Some((_, kn)) = keys.iter().find(|(ko, kn)| kn <= ko) {
+        kn.clone()
+    } else {
+        let mut all = keys.iter().flat_map(|(a, bb)| [a, bb]);
+        let mut p: Key = all.next().cloned().unwrap_or_default();
+        for k in all {
+            let n = p.iter().zip(k.iter()).take_while(|(x, y)| x == y).count();
+            p.truncate(n);
+        }
+        p
+    };
+    // base: what every consistent zone view contains
+    let mut base = ZoneView { apex: apex.clone(), data: BTreeMap::new() };
+    for (n, (ko, kn)) in c.nsecs.iter().zip(keys.iter()) {
+        let mut ts: BTreeSet<u16> = n.types.iter().copied().chain([T_RRSIG, T_NSEC]).collect();
+        if is_delegation_nsec(&n.types) && c.qtype != T_DS {
+            ts.insert(c.qtype); // free: anything but DS may exist on the child side
+        }
+        base.data.entry(ko.clone()).or_insert(ts);
+        let _ = kn;
+    }
+    for (_, kn) in keys.iter() {
+        if *kn != apex {
+            base.data.entry(kn.clone()).or_insert_with(|| [c.qtype].into_iter().collect());
+        }
+    }
+    if !consistent_with(&c.nsecs, &base) {
+        return None;
+    }
+    if !claim(c, &base) {
+        return Some(Some(base));
+    }
+    // relevant names: the query name, its ancestors, and the wildcard at each ancestor
+    let mut rel: Vec<Key> = vec![];
+    for i in 0..=kq.len() {
+        rel.push(kq[..i].to_vec());
+        if i < kq.len() {
+            rel.push(star(&kq[..i]));
+        }
+    }
+    rel.retain(|k| !base.data.contains_key(k));
+    rel.sort();
+    rel.dedup();
+    let with = |add: &[&Key]| -> ZoneView {
+        let mut z = base.clone();
+        for k in add {
+            z.data.insert((*k).clone(), [c.qtype].into_iter().collect());
+        }
+        z
+    };
+    for i in 0..rel.len() {
+        let z = with(&[&rel[i]]);
+        if consistent_with(&c.nsecs, &z) && !claim(c, &z) {
+            return Some(Some(z));
+        }
+    }
+    for i in 0..rel.len() {
+        for j in i + 1..rel.len() {
+            let z = with(&[&rel[i], &rel[j]]);
+            if consistent_with(&c.nsecs, &z) && !claim(c, &z) {
+                return Some(Some(z));
+            }
+        }
+    }
+    Some(None)
+}
+
+fn key_str(k: &[Vec<u8>]) -> String {
+    let mut s = String::new();
+    for l in k.iter().rev() {
+        s.push_str(&String::from_utf8_lossy(l));
+        s.push('.');
+    }
+    if s.is_empty() { ".".into() } else { s }
+}
+
+fn zone_str(z: &ZoneView) -> String {
+    z.data
+        .iter()
+        .map(|(k, ts)| format!("{} {:?}", key_str(k), ts.iter().collect::<Vec<_>>()))
+        .collect::<Vec<_>>()
+        .join("; ")
+}
+
+// ------------------------------------------------------------------------------------------
+// finding classes
+// ------------------------------------------------------------------------------------------
+
+/// Class of a known soundness deviation, computed from the case alone.  The nine classes found
+/// when this check was built (C08-F1a … C08-F6) were all repaired in /repo; none is open, so every
+/// soundness failure is an ordinary violation.
+pub fn classify(_c: &Case) -> &'static str {
+    ""
+}
+
+// ------------------------------------------------------------------------------------------
+// exec
+// ------------------------------------------------------------------------------------------
+
+pub fn exec(line: &str, rec: &mut Recorder) {
+    let t: Vec<&str> = line.split_whitespace().collect();
+    if t.first() == Some(&"e2e") {
+        e2e::exec(&t, line, rec);
+        return;
+    }
+    let Some(c) = Case::parse(&t) else {
+        rec.stat("skipped.unparsable-case");
+        return;
+    };
+    match catch(|| run_impl(&c)) {
+        Ok(p) => {
+            let idx = rec.case(line.to_string(), proof_str(p).to_string());
+            let mode = match (c.rcode, c.answers.is_empty()) {
+                (3, true) => "nxdomain",
+                (0, true) => "nodata",
+                (0, false) => "answer",
+                (3, false) => "nxdomain+answers",
+                _ => "other-rcode",
+            };
+            rec.stat(&format!("mode.{mode}"));
+            rec.stat(&format!("verdict.{}.{}", mode, proof_str(p)));
+            rec.stat(&format!("nsecs.{}", c.nsecs.len().min(6)));
+            rec.stat(if c.soa.is_some() { "soa.present" } else { "soa.absent" });
+            let f = falsifier(&c);
+            match &f {
+                None => rec.stat("oracle.nsec-set-inconsistent"),
+                Some(None) => rec.stat("oracle.claim-entailed"),
+                Some(Some(_)) => rec.stat("oracle.claim-not-entailed"),
+            }
+            if f.is_some() && !c.nsecs.is_empty() {
+                rec.nontrivial(idx);
+            }
+            let cls = classify(&c);
+            if p == Proof::Secure {
+                if let Some(Some(z)) = f {
+                    rec.stat(&format!("unsound.{}", if cls.is_empty() { "unclassified" } else { cls }));
+                    // every unclassified failure is recorded; of a known class the first 50
+                    let seen = *rec.stats.get(&format!("unsound.{}", if cls.is_empty() { "unclassified" } else { cls })).unwrap_or(&0);
+                    if cls.is_empty() || seen <= 50 {
+                        rec.fail(
+                            idx,
+                            format!(
+                                "verify_nsec answered Secure ({mode}) but the NSEC records do not entail the claim: \
+                                 the zone view {{ {} }} is consistent with every record and falsifies it",
+                                zone_str(&z)
+                            ),
+                            cls,
+                        );
+                    }
+                }
+            } else if p != Proof::Bogus {
+                rec.fail(idx, format!("verify_nsec returned {}", proof_str(p)), "");
+            }
+        }
+        Err(p) => {
+            let idx = rec.case(line.to_string(), format!("panic {p}"));
+            rec.fail(idx, format!("panic: {p}"), "");
+        }
+    }
+}
+
+// ------------------------------------------------------------------------------------------
+// generators
+// ------------------------------------------------------------------------------------------
+
+#[allow(dead_code)]
+fn nm(labels: &[&[u8]], apex: &Name) -> Name {
+    // labels given most-significant first, relative to apex
+    let mut n = apex.clone();
+    for l in labels {
+        n = n.prepend_label(*l).expect("label");
+    }
+    n
+}
+
+/// all names below `apex` with 0..=depth labels from `alphabet`, most significant label first
+fn universe(alphabet: &[&[u8]], depth: usize) -> Vec<Vec<Vec<u8>>> {
+    let mut out: Vec<Vec<Vec<u8>>> = vec![vec![]];
+    let mut frontier: Vec<Vec<Vec<u8>>> = vec![vec![]];
+    for _ in 0..depth {
+        let mut next = vec![];
+        for p in &frontier {
+            for l in alphabet {
+                let mut x = p.clone();
+                x.push(l.to_vec());
+                next.push(x);
+            }
+        }
+        out.extend(next.iter().cloned());
+        frontier = next;
+    }
+    out
+}
+
+fn rel_name(rel: &[Vec<u8>], apex: &Name) -> Name {
+    let ls: Vec<&[u8]> = rel.iter().map(|l| &l[..]).collect();
+    nm(&ls, apex)
+}
+
+/// The NSEC chain a signer produces for the zone `apex` + `data` (name → types, relative names):
+/// authoritative names in canonical order, names below a delegation left out.
+fn chain(apex: &Name, apex_types: &[u16], data: &[(Vec<Vec<u8>>, Vec<u16>)]) -> Vec<NsecRec> {
+    let mut names: Vec<(Name, Vec<u16>)> = vec![(apex.clone(), apex_types.to_vec())];
+    for (rel, ts) in data {
+        let below_cut = data.iter().any(|(d, dts)| {
+            dts.contains(&T_NS) && d.len() < rel.len() && rel[..d.len()] == d[..]
+        });
+        if !below_cut {
+            names.push((rel_name(rel, apex), ts.clone()));
+        }
+    }
+    names.sort_by(|a, bb| a.0.cmp(&bb.0));
+    names.dedup_by(|a, bb| a.0 == bb.0);
+    let k = names.len();
+    (0..k)
+        .map(|i| {
+            let mut ts = names[i].1.clone();
+            ts.push(T_RRSIG);
+            ts.push(T_NSEC);
+            ts.sort();
+            NsecRec { owner: names[i].0.clone(), next: names[(i + 1) % k].0.clone(), types: ts }
+        })
+        .collect()
+}
+
+struct Emit<'a> {
+    rec: &'a mut Recorder,
+    seen: HashSet<String>,
+    budget: usize,
+}
+
+impl Emit<'_> {
+    fn case(&mut self, c: &Case) {
+        if self.budget == 0 {
+            return;
+        }
+        let l = c.line();
+        if self.seen.insert(l.clone()) {
+            self.budget -= 1;
+            exec(&l, self.rec);
+        }
+    }
+}
+
+/// the response shapes tried for one (zone, NSEC subset, query)
+fn modes(q: &Name, apex: &Name, soa_variants: &[Option<Name>], qtypes: &[u16], nsecs: &[NsecRec], out: &mut Vec<Case>) {
+    for soa in soa_variants {
+        out.push(Case { q: q.clone(), qtype: T_A, soa: soa.clone(), rcode: 3, answers: vec![], nsecs: nsecs.to_vec() });
+        for qt in qtypes {
+            out.push(Case { q: q.clone(), qtype: *qt, soa: soa.clone(), rcode: 0, answers: vec![], nsecs: nsecs.to_vec() });
+        }
+        let (ql, al) = (q.num_labels(), apex.num_labels());
+        for l in al..ql {
+            out.push(Case {
+                q: q.clone(),
+                qtype: T_A,
+                soa: soa.clone(),
+                rcode: 0,
+                answers: vec![
+                    Ans { name: q.clone(), secure: true, rrsig_labels: None },
+                    Ans { name: q.clone(), secure: true, rrsig_labels: Some(l) },
+                ],
+                nsecs: nsecs.to_vec(),
+            });
+        }
+    }
+}
+
+/// Exhaustive small-scope enumeration: every zone with at most `max_names` data names below the
+/// apex drawn from the universe (labels {a,b,*}, depth ≤ `zdepth`) with every type variant,
+/// every non-empty subset (≤ `max_subset` records) of its NSEC chain, every query name of depth
+/// ≤ `qdepth`, every response shape.
+fn enumerate(em: &mut Emit, alphabet: &[&[u8]; 3], apex: &Name, zdepth: usize, qdepth: usize, max_names: usize, max_subset: usize, soa_none: bool) {
+    let zu: Vec<Vec<Vec<u8>>> = universe(alphabet, zdepth).into_iter().filter(|n| !n.is_empty()).collect();
+    let qu: Vec<Name> = universe(alphabet, qdepth).iter().map(|r| rel_name(r, apex)).collect();
+    let tvs: [&[u16]; 3] = [&[T_A], &[T_TXT], &[T_NS]];
+    let soa_variants: Vec<Option<Name>> =
+        if soa_none { vec![Some(apex.clone()), None] } else { vec![Some(apex.clone())] };
+    // choose index sets of size ≤ max_names
+    let mut sets: Vec<Vec<usize>> = vec![vec![]];
+    let mut frontier: Vec<Vec<usize>> = vec![vec![]];
+    for _ in 0..max_names {
+        let mut next = vec![];
+        for s in &frontier {
+            let lo = s.last().map(|x| x + 1).unwrap_or(0);
+            for i in lo..zu.len() {
+                let mut x = s.clone();
+                x.push(i);
+                next.push(x);
+            }
+        }
+        sets.extend(next.iter().cloned());
+        frontier = next;
+    }
+    for s in &sets {
+        // every assignment of type variants
+        let combos = tvs.len().pow(s.len() as u32);
+        for combo in 0..combos {
+            let mut cc = combo;
+            let data: Vec<(Vec<Vec<u8>>, Vec<u16>)> = s
+                .iter()
+                .map(|i| {
+                    let tv = tvs[cc % tvs.len()];
+                    cc /= tvs.len();
+                    (zu[*i].clone(), tv.to_vec())
+                })
+                .collect();
+            // skip zones with a data name below a delegation (glue: same chain as without it)
+            if data.iter().any(|(rel, _)| {
+                data.iter().any(|(d, dts)| dts.contains(&T_NS) && d.len() < rel.len() && rel[..d.len()] == d[..])
+            }) {
+                continue;
+            }
+            let has_deleg = data.iter().any(|(_, ts)| ts.contains(&T_NS));
+            let ch = chain(apex, &[T_NS, T_SOA], &data);
+            let qtypes: &[u16] = if has_deleg { &[T_A, T_DS] } else { &[T_A] };
+            let k = ch.len();
+            for mask in 1u32..(1 << k) {
+                if mask.count_ones() as usize > max_subset {
+                    continue;
+                }
+                let sub: Vec<NsecRec> = (0..k).filter(|i| mask >> i & 1 == 1).map(|i| ch[i].clone()).collect();
+                let mut cases = vec![];
+                for q in &qu {
+                    modes(q, apex, &soa_variants, qtypes, &sub, &mut cases);
+                }
+                for c in &cases {
+                    em.case(c);
+                    if em.budget == 0 {
+                        return;
+                    }
+                }
+            }
+        }
+    }
+}
+
+fn rand_label(r: &mut Rng) -> Vec<u8> {
+    match r.below(10) {
+        0 => b"*".to_vec(),
+        1 => vec![*r.pick(&[b'A', b'a', b'Z', b'z', 0u8, 0xff, b'-', b'0'])],
+        2 | 3 => {
+            let n = r.range(1, 6) as usize;
+            (0..n).map(|_| *r.pick(b"abAB*z-09")).collect()
+        }
+        _ => vec![*r.pick(b"abcdw")],
+    }
+}
+
+/// random zone over a wider alphabet / deeper names, random subset, query near the zone's names
+fn random_case(r: &mut Rng) -> Case {
+    let apex = match r.below(6) {
+        0 => Name::root(),
+        1 => Name::from_ascii("Example.COM.").unwrap(),
+        _ => Name::from_ascii("example.").unwrap(),
+    };
+    let n = r.range(0, 6) as usize;
+    let mut data: Vec<(Vec<Vec<u8>>, Vec<u16>)> = vec![];
+    for _ in 0..n {
+        let d = r.range(1, 4) as usize;
+        let rel: Vec<Vec<u8>> = if !data.is_empty() && r.chance(1, 2) {
+            // related to an existing name: child / sibling
+            let mut x = r.pick(&data).0.clone();
+            if r.chance(1, 2) && x.len() > 1 {
+                x.pop();
+            }
+            x.push(rand_label(r));
+            x
+        } else {
+            (0..d).map(|_| rand_label(r)).collect()
+        };
+        let ts: Vec<u16> = match r.below(8) {
+            0 => vec![T_NS],
+            1 => vec![T_NS, T_DS],
+            2 => vec![T_TXT],
+            3 => vec![T_CNAME],
+            4 => vec![T_A, T_TXT],
+            _ => vec![T_A],
+        };
+        if rel.len() <= 5 {
+            data.push((rel, ts));
+        }
+    }
+    let ch = chain(&apex, &[T_NS, T_SOA, T_A], &data);
+    let mut sub: Vec<NsecRec> = ch.iter().filter(|_| r.chance(1, 2)).cloned().collect();
+    if sub.is_empty() || r.chance(1, 6) {
+        sub = ch.clone();
+    }
+    if r.chance(1, 12) {
+        // a record that is not a link of this zone's chain
+        let o = rel_name(&[rand_label(r)], &apex);
+        let nx = rel_name(&[rand_label(r)], &apex);
+        sub.push(NsecRec { owner: o, next: nx, types: vec![T_A, T_RRSIG, T_NSEC] });
+    }
+    if r.chance(1, 4) {
+        let i = r.below(sub.len() as u64) as usize;
+        let j = r.below(sub.len() as u64) as usize;
+        sub.swap(i, j);
+    }
+    // query: near a zone name
+    let base: Vec<Vec<u8>> = if !data.is_empty() && r.chance(4, 5) { r.pick(&data).0.clone() } else { vec![] };
+    let mut qrel = base;
+    match r.below(6) {
+        0 => {}
+        1 => {
+            qrel.pop();
+        }
+        2 => qrel.push(rand_label(r)),
+        3 => {
+            qrel.pop();
+            qrel.push(rand_label(r));
+        }
+        4 => {
+            qrel.push(rand_label(r));
+            qrel.push(rand_label(r));
+        }
+        _ => {
+            if let Some(l) = qrel.last_mut() {
+                l.push(*r.pick(b"a0-"));
+            }
+        }
+    }
+    qrel.truncate(6);
+    let mut q = rel_name(&qrel, &apex);
+    if r.chance(1, 40) {
+        q.set_fqdn(false);
+    }
+    let soa = match r.below(10) {
+        0 | 1 => None,
+        2 => Some(rel_name(&[rand_label(r)], &apex)),
+        _ => Some(apex.clone()),
+    };
+    let qtype = *r.pick(&[T_A, T_A, T_A, T_DS, T_TXT, T_NS, T_CNAME, T_NSEC, 255]);
+    let (rcode, answers) = match r.below(10) {
+        0..=3 => (3, vec![]),
+        4..=6 => (0, vec![]),
+        7 | 8 => {
+            let ql = q.num_labels();
+            let l = if ql > 0 { r.below(ql as u64 + 1) as u8 } else { 0 };
+            let mut a = vec![Ans { name: q.clone(), secure: true, rrsig_labels: None }];
+            a.push(Ans { name: q.clone(), secure: r.chance(9, 10), rrsig_labels: Some(l) });
+            if r.chance(1, 4) {
+                let l2 = r.below(ql as u64 + 2) as u8;
+                let other = if r.chance(1, 2) { q.clone() } else { rel_name(&[rand_label(r)], &apex) };
+                a.push(Ans { name: other, secure: true, rrsig_labels: Some(l2) });
+            }
+            (0, a)
+        }
+        _ => (*r.pick(&[2u16, 3, 5, 0]), vec![Ans { name: q.clone(), secure: true, rrsig_labels: None }]),
+    };
+    Case { q, qtype, soa, rcode, answers, nsecs: sub }
+}
+
+/// hand-built adversarial cases (also in corpus/C08/*.case)
+fn adversarial() -> Vec<String> {
+    vec![]
+}
+
+pub fn run(o: &Opts, rec: &mut Recorder) {
+    rec.rule = "verify_nsec on (query, soa, rcode, answers, NSEC subset): exhaustive small-scope enumeration \
+                (labels {a,b,*}, zones × chain subsets × queries × response shapes) + random larger zones + \
+                hand-built cases + end-to-end server-generated proofs; a case is non-trivial when the NSEC \
+                set is non-empty and consistent with at least one zone view (so that soundness is not \
+                vacuous), or is an end-to-end case the server answered with NSEC records; distinct by case line"
+        .into();
+    for l in o.pre_lines.clone() {
+        exec(&l, rec);
+    }
+    rec.corpus_cases = rec.cases.len();
+    if o.replay_only {
+        return;
+    }
+    for l in adversarial() {
+        exec(&l, rec);
+    }
+    let x = Name::from_ascii("x.").unwrap();
+    let thorough = o.thorough();
+    let ab: [&[u8]; 3] = [b"a", b"b", b"*"];
+    // `!` sorts before `*`: names below a wildcard-labelled name on both sides of `*.<it>`
+    let ab2: [&[u8]; 3] = [b"!", b"a", b"*"];
+    {
+        // zones with ≤ 1 data name (depth ≤ 2), queries to depth 3, with and without SOA
+        let mut em = Emit { rec, seen: HashSet::new(), budget: o.n(60_000, 200_000) };
+        enumerate(&mut em, &ab, &x, 2, 3, 1, 2, true);
+    }
+    if thorough {
+        let mut em = Emit { rec, seen: HashSet::new(), budget: 400_000 };
+        enumerate(&mut em, &ab2, &x, 2, 3, 2, 2, false);
+        let mut em = Emit { rec, seen: HashSet::new(), budget: 1_200_000 };
+        enumerate(&mut em, &ab, &x, 2, 3, 2, 3, true);
+        let mut em = Emit { rec, seen: HashSet::new(), budget: 1_000_000 };
+        enumerate(&mut em, &ab, &x, 3, 3, 2, 3, false);
+        let mut em = Emit { rec, seen: HashSet::new(), budget: 300_000 };
+        enumerate(&mut em, &ab, &Name::root(), 2, 2, 2, 3, true);
+    } else {
+        let mut em = Emit { rec, seen: HashSet::new(), budget: 15_000 };
+        enumerate(&mut em, &ab2, &x, 1, 3, 1, 2, false);
+    }
+    let mut r = Rng::new(o.seed);
+    for _ in 0..o.n(30_000, 600_000) {
+        let c = random_case(&mut r);
+        exec(&c.line(), rec);
+    }
+    e2e::run(o, rec);
 }
